@@ -365,6 +365,14 @@ class OrderEval:
             for t, x in zip(tgt.elts, v):
                 self._assign(t, x)
             return
+        if isinstance(tgt, ast.Subscript) and not isinstance(tgt.slice, ast.Slice):
+            base = self.ev(tgt.value)
+            if isinstance(base, (list, dict)) and not (isinstance(base, dict) and "__class__" in base):
+                try:
+                    base[self.ev(tgt.slice)] = v
+                except (IndexError, KeyError, TypeError) as exc:
+                    raise NotTabulable(f"subscript store: {exc}") from exc
+                return
         raise NotTabulable(f"assignment target not tabulable: {unparse(tgt)}")
 
     @staticmethod
@@ -383,6 +391,21 @@ class OrderEval:
                 return a * b
             if isinstance(op, ast.FloorDiv) and b:
                 return a // b
+            if isinstance(op, ast.Mod) and b:
+                return a % b
+            if isinstance(op, ast.Div) and b:
+                return a / b
+            if isinstance(a, int) and isinstance(b, int) and not isinstance(a, bool) and not isinstance(b, bool):
+                if isinstance(op, ast.BitOr):
+                    return a | b
+                if isinstance(op, ast.BitAnd):
+                    return a & b
+                if isinstance(op, ast.BitXor):
+                    return a ^ b
+                if isinstance(op, ast.LShift) and 0 <= b < 256:
+                    return a << b
+                if isinstance(op, ast.RShift) and 0 <= b < 256:
+                    return a >> b
         if isinstance(a, (set, frozenset)) and isinstance(b, (set, frozenset)):
             if isinstance(op, ast.BitOr):
                 return a | b
@@ -471,7 +494,12 @@ class OrderEval:
                 except (KeyError, IndexError, TypeError) as exc:
                     raise NotTabulable(f"subscript: {exc}") from exc
         if isinstance(e, (ast.Set, ast.List)):
-            vals = [self.ev(x) for x in e.elts]
+            vals = []
+            for x in e.elts:
+                if isinstance(x, ast.Starred):
+                    vals.extend(self._iterable(self.ev(x.value)))
+                else:
+                    vals.append(self.ev(x))
             return frozenset(vals) if isinstance(e, ast.Set) else tuple(vals)
         if isinstance(e, ast.Call):
             fname = path_of(e.func)
@@ -479,7 +507,29 @@ class OrderEval:
                 return self.calls[fname](self, e)
             if fname in ("max", "min") and e.args and not e.keywords:
                 vals = [self.ev(a) for a in e.args]
+                if len(vals) == 1 and isinstance(vals[0], (tuple, list, frozenset, set)):
+                    vals = list(vals[0])
+                    if not vals:
+                        raise NotTabulable("min/max of an empty sequence")
                 return (max if fname == "max" else min)(vals)
+            if fname == "range" and 1 <= len(e.args) <= 3 and not e.keywords:
+                a_ = [self.ev(a) for a in e.args]
+                if all(isinstance(x, int) for x in a_) and len(range(*a_)) <= 4096:
+                    return tuple(range(*a_))
+            if fname == "float" and len(e.args) == 1 and isinstance(e.args[0], ast.Constant) and e.args[0].value in ("inf", "-inf"):
+                return float(e.args[0].value)
+            if fname in ("int", "float", "bool") and len(e.args) == 1 and not e.keywords:
+                v_ = self.ev(e.args[0])
+                if isinstance(v_, (int, float)) and v_ == v_ and abs(v_) != float("inf"):
+                    return {"int": int, "float": float, "bool": bool}[fname](v_)
+                if fname == "bool":
+                    return self.truth(v_)
+            if fname == "enumerate" and len(e.args) == 1 and not e.keywords:
+                return tuple(enumerate(self._iterable(self.ev(e.args[0]))))
+            if fname == "divmod" and len(e.args) == 2 and not e.keywords:
+                a_, b_ = self.ev(e.args[0]), self.ev(e.args[1])
+                if isinstance(a_, int) and isinstance(b_, int) and b_:
+                    return divmod(a_, b_)
             if fname in ("any", "all", "sum", "len", "set", "frozenset", "sorted", "list", "tuple", "abs") and len(e.args) == 1 and not e.keywords:
                 arg = self.ev(e.args[0])
                 if fname == "abs":
